@@ -161,7 +161,7 @@ def main(tier, seed):
     chk.replayer = replayer
     n, D = (9, 3) if tier == 'quick' else (12, 3)
     for own in (IF, WHILE, FOR): chk.job(job_boundaries, 'L1:%s' % KNAMES[own], own=own, n=n, D=D)
-    nprog = 72 if tier == 'quick' else 480
+    nprog = 144 if tier == 'quick' else 600
     seeds = [seed * 100000 + i for i in range(nprog)]
     for gi in range(12): chk.job(job_runs, 'L2:programs/%d' % gi, seeds=seeds[gi::12], depth=2 if tier == 'quick' else 3, size=7 if tier == 'quick' else 10)
     chk.bounds = dict(layer1='opener at line 0 followed by <= %d symbolic lines, nesting <= %d, every alias / full-name spelling of every block keyword' % (n - 1, D),
